@@ -484,6 +484,7 @@ func (idx *MergeSetIndex) putIndexSearch(is *indexSearch) {
 	is.idx = nil
 	is.deleted = nil
 	is.tfs = is.tfs[:0]
+	is.promRegex = false
 	indexSearchPool.Put(is)
 }
 
@@ -1052,6 +1053,7 @@ func (idx *MergeSetIndex) SearchSeriesIterator(span *tracing.Span, name []byte, 
 	is := idx.getIndexSearch()
 
 	is.setDeleted(idx.GetDeletedTSIDs())
+	is.promRegex = opt.IsPromQuery()
 	itr, err := is.measurementSeriesByExprIterator(name, opt.Condition, singleSeries, tsid, opt.IsPromAbsentCall())
 	if search != nil {
 		search.Finish()
